@@ -29,5 +29,20 @@ TEXTS = {
                  "unconditional on how the graph was built."),
         "technique": "Coq proof (iff between validate and a declarative reachability-of-failure relation) + proved decision procedure run on real verdicts",
     },
+    "C14": {
+        "text": ("Coq theorems over the executable model of ModuleGraph::resolve/get/contains/try_get/"
+                 "try_get_prefer_types/resolve_dependency/specifiers: resolve needs at most 10 loop rounds on any "
+                 "graph; on a chain of <= 9 hops it returns the chain end and is idempotent; when no intermediate "
+                 "specifier owns an entry, get/contains/try_get return exactly what a walk reaches; specifiers() "
+                 "lists one-hop redirect sources; type-preferring dependency resolution returns the loaded types "
+                 "module, else the code module. The unrestricted statement is refuted by four vm_compute witnesses, "
+                 "each confirmed on the real code (known findings F-C14a-d). Every real lookup of every specifier of "
+                 "thousands of chain-heavy graphs is compared with the model and judged against the real walk."),
+        "design_ref": "DESIGN.md section 5 C14, section 6",
+        "note": ("Trusted: Coq kernel; extraction; harness abstraction. The link between the model's walk_end and the "
+                 "real walk is checked per case (the real walk end is an input of the decision procedure), not proved "
+                 "against Model/Walk.v."),
+        "technique": "Coq proof (chain induction with seen-set invariant) + refutation witnesses + proved-model differential testing of all lookups",
+    },
 }
 NOT_YET = {}
